@@ -106,3 +106,22 @@ def mutations(fn):
         if bad:
             out.append((st, norm(st)[:70]))
     return out
+
+
+def shrinking_iteration(fn):
+    """[(loop, text of the iterated expression)]: loops over a node's live children list (no copy) whose body re-parents the loop variable --
+    assigning .parent removes the element from the list being iterated."""
+    out = []
+    for lp in ast.walk(fn):
+        if not (isinstance(lp, ast.For) and isinstance(lp.target, ast.Name)):
+            continue
+        it = lp.iter
+        if not (isinstance(it, ast.Attribute) and it.attr == 'children'):
+            continue
+        v = lp.target.id
+        for st in ast.walk(lp):
+            if isinstance(st, ast.Assign) and any(isinstance(t, ast.Attribute) and t.attr == 'parent' and isinstance(t.value, ast.Name) and t.value.id == v
+                                                  for t in st.targets):
+                out.append((lp, norm(it)))
+                break
+    return out
